@@ -17,6 +17,7 @@ def dispatch (line : String) : String :=
   | "RC" :: toks => Drv.ReplD.handleClean toks
   | "AY" :: toks => Drv.AsyncD.handle toks
   | "PX" :: toks => Drv.PxD.handle toks
+  | "PP" :: toks => Drv.PxD.handlePrompt toks
   | "LV" :: toks => Drv.PxD.handleLev toks
   | "RN" :: toks => Drv.RunD.handle toks
   | "LF" :: toks => Drv.LifeD.handle toks
